@@ -10,6 +10,8 @@
 //   DCLONE <mode> <hex>    source = Message::factory(ctx, bytes, no_chksum, permissive); mode = s|p [n]
 //   DCOPY  <mode> <hex>
 //   DMOVE  <mode> <hex>
+//   SEQ <case> || <case> ...   several operations in a row in this process (two-schema build: each may start with
+//                              "@utest " / "@fix44 "); result = the results joined by " || "
 //   RENDER <fnum> <hex text>   print() of a fresh field (API-built float with precision when marked): "OK <hex>"
 //   SCOPY / SMOVE <msgspec>, DSCOPY / DSMOVE <mode> <hex>: as COPY / MOVE into a SHALLOW-constructed target
 // Result line: stages separated by " | "; the line stops at the first failing stage (EXC ...).
@@ -23,7 +25,15 @@
 //   must not be encoded: its _fields hold null pointers).  The moved-from source is dumped with
 //   "null" for the null pointers left in _fields / _groups and then deleted (under ASan).
 #include "meta_dump.hpp"
-#if __has_include("utest_types.hpp")
+#if defined C11_BOTH	// FIX42UTEST and FIX44 in ONE process: a case (or SEQ sub-operation) selects its schema with "@utest " / "@fix44 "
+#include "utest_types.hpp"
+#include "utest_router.hpp"
+#include "utest_classes.hpp"
+#include "fix44_types.hpp"
+#include "fix44_router.hpp"
+#include "fix44_classes.hpp"
+#define CODEC_NS FIX8::UTEST
+#elif __has_include("utest_types.hpp")
 #include "utest_types.hpp"
 #include "utest_router.hpp"
 #include "utest_classes.hpp"
@@ -41,7 +51,21 @@ using namespace FIX8;
 
 namespace {
 
-const F8MetaCntx& mctx() { return CODEC_NS::ctx(); }
+// the schema of the operation being run (default: the first one)
+const F8MetaCntx *g_ctx(nullptr);
+const F8MetaCntx& mctx() { return g_ctx ? *g_ctx : CODEC_NS::ctx(); }
+bool select_schema(const std::string& name)
+{
+#if defined C11_BOTH
+	if (name == "fix44") { g_ctx = &FIX8::FIX44::ctx(); return true; }
+	if (name == "utest") { g_ctx = &FIX8::UTEST::ctx(); return true; }
+	return false;
+#else
+	(void)name;
+	g_ctx = &CODEC_NS::ctx();
+	return true;
+#endif
+}
 
 // ---------------------------------------------------------------------------- spec parser (as h_codec.cpp)
 struct Parser
@@ -244,8 +268,38 @@ void enc_stage(std::ostream& os, Message *msg)
 		os << "OK " << h;
 }
 
-void run_case(const std::string& line, std::ostream& os)
+void run_case(const std::string& line0, std::ostream& os)
 {
+	// SEQ <case> || <case> || ...: the operations run one after the other in this process, on this
+	// thread (results joined by " || "): state kept between calls inside fix8 would show here
+	if (line0.compare(0, 4, "SEQ ") == 0)
+	{
+		size_t i(4);
+		bool first(true);
+		while (i <= line0.size())
+		{
+			size_t j(line0.find(" || ", i));
+			if (j == std::string::npos) j = line0.size();
+			if (!first) os << " || ";
+			first = false;
+			run_case(line0.substr(i, j - i), os);
+			i = j + 4;
+		}
+		return;
+	}
+	std::string line(line0);
+	select_schema("utest");
+	if (!line.empty() && line[0] == '@')
+	{
+		const size_t sp(line.find(' '));
+		const std::string name(line.substr(1, sp == std::string::npos ? std::string::npos : sp - 1));
+		if (!select_schema(name))
+		{
+			os << "BAD-CASE schema not linked";
+			return;
+		}
+		line = sp == std::string::npos ? std::string() : line.substr(sp + 1);
+	}
 	std::istringstream is(line);
 	std::string op, a1, a2;
 	is >> op >> a1 >> a2;
